@@ -14,7 +14,7 @@ pub fn def() -> PropDef {
         job_level,
         run_job,
         replay,
-        rule: "configs: typing keys a (plain a, or a tap-hold 8: time-sensitive), b, c = lsft; record / stop / stop-truncate 1 / play keys; x replay-delay-behaviour {constant, recorded} x dynamic-macro-max-presses {128, 2}. Scenario: [optionally hold c before starting], start recording, EVERY physically consistent typing schedule of N events over a,b,c with gaps from {0,1,3,12} (quick N=4, thorough N=5), stop (plain stop / stop-truncate / pressing record again / the size limit), settle, play (once; twice; again while the replay runs), settle. Also: self-play inside the recording, nested play of a second macro, re-recording over the id; play-graph family: macros 1 and 2 recorded as EVERY sequence of <= L items (quick 2, thorough 3) over {tap a, tap b, play 1, play 2}, then each played: the replay terminates (at most L*L+2 key presses) and leaves nothing pressed, whatever cycles the play graph has. Relational oracle on the REAL code: the key output produced during the replay equals the output of feeding the same typed events (minus the stop key and the truncated tail, plus releases of the keys still down at stop) to a FRESH instance: same press order, same multiset of events (time-insensitive config: any pacing; time-sensitive config with recorded delays: same tap/hold decisions); nothing is held after the replay; a self-playing macro terminates; with max-presses 2 the recording ends by itself and the replay holds at most the limit.",
+        rule: "configs: typing keys a (plain a, or a tap-hold 8: time-sensitive), b, c = lsft; record / stop / stop-truncate 1 / play keys; x replay-delay-behaviour {constant, recorded} x dynamic-macro-max-presses {128, 2}. Scenario: [optionally hold c before starting], start recording, EVERY physically consistent typing schedule of N events over a,b,c with gaps from {0,1,3,12} (quick N=4, thorough N=5), stop (plain stop / stop-truncate / pressing record again / pressing the record key of another macro id / the size limit), settle, play (once; twice; again while the replay runs), settle. Also: self-play inside the recording, nested play of a second macro, re-recording over the id; play-graph family: macros 1 and 2 recorded as EVERY sequence of <= L items (quick 2, thorough 3) over {tap a, tap b, play 1, play 2}, then each played: the replay terminates (at most L*L+2 key presses) and leaves nothing pressed, whatever cycles the play graph has. Relational oracle on the REAL code: the key output produced during the replay equals the output of feeding the same typed events (minus the stop key and the truncated tail, plus releases of the keys still down at stop) to a FRESH instance: same press order, same multiset of events (time-insensitive config: any pacing; time-sensitive config with recorded delays: same tap/hold decisions); nothing is held after the replay; a self-playing macro terminates; with max-presses 2 the recording ends by itself and the replay holds at most the limit.",
         assumptions: &["typing gaps are chosen away from the tap-hold boundary (3 vs 12 against a timeout of 8) so that the one-event delay lag of the recorder cannot flip a decision", "stepper mode (every ms ticks); the blocked-ms recording finding of C07 is separate"],
         required_level,
         min_outcomes: 3,
@@ -47,6 +47,8 @@ enum Stop {
     Plain,
     Truncate,
     RecordAgain,
+    /// the record key of ANOTHER macro id ends this recording (and starts that one, stopped right after)
+    RecordOther,
 }
 
 struct Job {
@@ -150,6 +152,11 @@ fn scenario(spec: &Spec, hold_c_before: bool, typing: &[(u32, Ev)], stop: Stop, 
         Stop::Plain => h.extend(tap("s")),
         Stop::Truncate => h.extend(tap("t")),
         Stop::RecordAgain => h.extend(tap("r")),
+        Stop::RecordOther => {
+            h.extend(tap("q"));
+            h.push(Ev::T(3));
+            h.extend(tap("s"));
+        }
     }
     // release what is still physically down, settle
     for k in down.clone() {
@@ -564,7 +571,7 @@ fn run_job(tier: Tier, idx: usize, st: &mut Stats) {
                 return;
             }
             for hold_c in [false, true] {
-                for (stop, plays) in [(Stop::Plain, 1u8), (Stop::Truncate, 1), (Stop::RecordAgain, 1), (Stop::Plain, 2), (Stop::Plain, 3)] {
+                for (stop, plays) in [(Stop::Plain, 1u8), (Stop::Truncate, 1), (Stop::RecordAgain, 1), (Stop::RecordOther, 1), (Stop::Plain, 2), (Stop::Plain, 3)] {
                     if j.spec.max < 100 && stop == Stop::Truncate {
                         continue;
                     }
